@@ -23,7 +23,9 @@ def projection(obs, A, norm):
 
 
 def rustc(c, cases):
-    batch = [cs for cs in cases if cs["impl"].startswith("ok") and (cs.get("ref") or (cs["meta"].get("source") or "").endswith(("hello.wsdl", "tempconverter.wsdl")))]
+    batch = [cs for cs in cases if cs["impl"].startswith("ok") and (cs.get("ref") or (cs["meta"].get("source") or "").endswith(("hello.wsdl", "tempconverter.wsdl")) or (cs["meta"].get("corpus") and cs["start"].endswith(".wsdl")))]
+    # the hand-written WSDLs of the targeted corpus first (several ports, URN soapActions, headers), then the generated ones
+    batch.sort(key=lambda cs: 0 if cs["meta"].get("corpus") else 1)
     chosen = batch[: (64 if c.tier == "quick" else 900)]
     fails = []
     n = 0
